@@ -46,6 +46,7 @@ static void apply_settings(int argc, char** argv) {
     G.cpu_seam = false;
   if (!arg(argc, argv, "--prop", "").empty())
     G.own_prefix = arg(argc, argv, "--prop", "") + ".";
+  G.extra_randomness = flag(argc, argv, "--extra-randomness");
   std::string en = arg(argc, argv, "--enabled", "");
   if (!en.empty()) {
     G.enabled_mask = 0;
@@ -70,6 +71,8 @@ static std::string plan_with_result(Plan p, const RunResult& r, const Violation&
   p.variant = G.variant;
   if (!G.node_override.empty())
     p.meta["node"] = G.node_override;
+  if (G.extra_randomness)
+    p.meta["extra_randomness"] = "1";
   if (G.enabled_mask != 0x1FFE) {
     std::string s;
     for (int i = 1; i <= 12; i++)
@@ -233,6 +236,8 @@ static int cmd_run(int argc, char** argv) {
 }
 
 static void settings_from_plan(const Plan& p) {
+  if (p.meta.count("extra_randomness"))
+    G.extra_randomness = true;
   if (!p.prop.empty())
     G.own_prefix = p.prop + ".";
   if (p.meta.count("node") && G.node_override.empty())
